@@ -20,6 +20,7 @@ def REC(b):
         "  (c in %s.exceptions) == (c in old(%s.exceptions)) and "
         "  implies(c in %s.exceptions, seq_eq(%s.exceptions[c], old(%s.exceptions)[c]))))" % (b, b, b, b, b),
         "forall(o, Ref_Broker, implies(o != %s, o.exceptions == old(o.exceptions) and o.tracebacks == old(o.tracebacks)))" % b,
+        "forall(o, Ref_Broker, o.missing_requirements == old(o.missing_requirements))",
     ]
 
 
@@ -38,7 +39,7 @@ def declare(reg):
                   ensures=REC("broker"), ensures_raise={"Exception": REC("broker")})
 
     reg.contract(DR, "ComponentType.process", params=dict(self=Ref("Delegate"), broker=Ref("Broker")), returns=Opt(Val),
-                 modifies=["Broker.exceptions", "Broker.tracebacks"],
+                 modifies=["Broker.exceptions", "Broker.tracebacks", "Broker.missing_requirements", "Delegate.timeout"],
                  ghosts=dict(ninv=(INT, "0")), locals=dict(ninv=INT),
                  ghost_on=[("return self.invoke(broker)", "ninv = ninv + 1", "before")],
                  raises={"Exception": None},
@@ -242,7 +243,7 @@ def declare(reg):
     MR = "[r for r in self.requires if r not in broker.instances]"
     MA = "[g for g in self.at_least_one if not any(m in broker.instances for m in g)]"
     reg.contract(P, "rule.process", params=dict(self=Ref("Delegate"), broker=Ref("Broker")), returns=Opt(Val),
-                 modifies=["Broker.exceptions", "Broker.tracebacks"],
+                 modifies=["Broker.exceptions", "Broker.tracebacks", "Broker.missing_requirements", "Delegate.timeout"],
                  ghosts=dict(ninv=(INT, "0"), inv_val=(Opt(Val), "None")), locals=dict(ninv=INT, inv_val=Opt(Val)),
                  ghost_on=[("r = self.invoke(broker)", "ninv = ninv + 1", "before"), ("r = self.invoke(broker)", "inv_val = r", "after")],
                  raises={"Exception": None},
